@@ -50,7 +50,7 @@ func init() {
 			{From: "C09", Rules: []string{"D8"}, Why: "the message store hands its own device key to the opener so that reading back its own messages does not advance its sending chain; with another key the sender burns two chain steps per message while receivers slide their window by one, and from the end of the window on every message of that sender stays parked"},
 			{From: "C14", Rules: []string{"D1"}, Why: "opening a message's push payload first must not consume its precomputed key: the log entry arriving afterwards would fail to open on every retry and stay parked for good"},
 		},
-		Run:         runC08,
+		Run: runC08,
 	})
 }
 
@@ -273,6 +273,7 @@ type c08an struct {
 	lockMode map[string]byte
 	gme      types.Type // *protocoltypes.GroupMessageEvent
 	memoDisp map[string]bool
+	memoRuns map[*ssa.Function][]c08run
 	memoKnow map[string]bool
 	memoPred map[string]bool
 }
@@ -387,6 +388,13 @@ func (a *c08an) isGMEEmit(ci ssa.CallInstruction) bool {
 // event): park, re-queue, group-message emission, or a call of a root-package function that
 // does one of these on every path with the corresponding parameter.
 func (a *c08an) dispositions(fn *ssa.Function, v ssa.Value, depth int) c08Stops {
+	return a.dispositionsM(fn, func(x ssa.Value) bool { return stripConv(x) == v }, depth)
+}
+
+// dispositionsM: like dispositions, the item being given by a predicate on SSA values (inside
+// a closure the item is a load of the captured variable). A call at which a closure runs
+// exactly once (closureRuns) is a disposition when the closure settles the item on every path.
+func (a *c08an) dispositionsM(fn *ssa.Function, match func(ssa.Value) bool, depth int) c08Stops {
 	out := c08Stops{}
 	for _, b := range fn.Blocks {
 		for _, in := range b.Instrs {
@@ -401,7 +409,7 @@ func (a *c08an) dispositions(fn *ssa.Function, v ssa.Value, depth int) c08Stops 
 			switch {
 			case c08IsPark(ci) || c08IsRequeue(ci):
 				for _, x := range cc.Args[1:] {
-					if stripConv(x) == v {
+					if match(x) {
 						out[in] = true
 					}
 				}
@@ -416,7 +424,7 @@ func (a *c08an) dispositions(fn *ssa.Function, v ssa.Value, depth int) c08Stops 
 					if i >= len(f.Params) {
 						break
 					}
-					if stripConv(x) == v || (a.gme != nil && types.Identical(x.Type(), a.gme)) {
+					if match(x) || (a.gme != nil && types.Identical(x.Type(), a.gme)) {
 						if a.disposes(f, i, depth-1) {
 							out[in] = true
 						}
@@ -425,7 +433,319 @@ func (a *c08an) dispositions(fn *ssa.Function, v ssa.Value, depth int) c08Stops 
 			}
 		}
 	}
+	for _, run := range a.closureRuns(fn) {
+		gm := a.itemInClosure(fn, run, match)
+		if gm == nil {
+			continue
+		}
+		gstops := a.dispositionsM(run.g, gm, depth)
+		if len(gstops) == 0 {
+			continue
+		}
+		all := true
+		for pr := range c08ClosureSummary(run.g, gstops, nil) {
+			if !pr.disposed {
+				all = false
+			}
+		}
+		if all {
+			out[run.site] = true
+		}
+	}
 	return out
+}
+
+// ---------- closures run exactly once at a call (withLock(func()) idiom) ----------
+
+// c08run: at call site (an instruction of f) closure g runs exactly once before the call
+// returns: the call is `func(){..}()`, or a call of a module helper that calls its func
+// parameter exactly once on every path and uses it for nothing else.
+type c08run struct {
+	site *ssa.Call
+	mc   *ssa.MakeClosure
+	g    *ssa.Function
+}
+
+func (a *c08an) closureRuns(f *ssa.Function) []c08run {
+	if v, ok := a.memoRuns[f]; ok {
+		return v
+	}
+	var out []c08run
+	for _, b := range f.Blocks {
+		for _, in := range b.Instrs {
+			call, ok := in.(*ssa.Call)
+			if !ok {
+				continue
+			}
+			cc := call.Common()
+			if mc, ok := cc.Value.(*ssa.MakeClosure); ok && !cc.IsInvoke() {
+				if g, ok := mc.Fn.(*ssa.Function); ok && g.Blocks != nil {
+					out = append(out, c08run{call, mc, g})
+				}
+				continue
+			}
+			h := staticCallee(cc)
+			if h == nil || h.Blocks == nil || !inModule(h) {
+				continue
+			}
+			for j, x := range cc.Args {
+				mc, ok := x.(*ssa.MakeClosure)
+				if !ok || j >= len(h.Params) {
+					continue
+				}
+				g, ok := mc.Fn.(*ssa.Function)
+				if !ok || g.Blocks == nil || !c08OnlyUsedBy(mc, call) || !c08CallsParamOnce(h, j) {
+					continue
+				}
+				out = append(out, c08run{call, mc, g})
+			}
+		}
+	}
+	a.memoRuns[f] = out
+	return out
+}
+
+func c08OnlyUsedBy(v ssa.Value, user ssa.Instruction) bool {
+	if v.Referrers() == nil {
+		return true
+	}
+	for _, r := range *v.Referrers() {
+		if r == user {
+			continue
+		}
+		if _, isDbg := r.(*ssa.DebugRef); isDbg {
+			continue
+		}
+		return false
+	}
+	return true
+}
+
+// c08CallsParamOnce: h uses its func-typed parameter j only to call it, and every path from
+// entry to a return passes exactly one such call.
+func c08CallsParamOnce(h *ssa.Function, j int) bool {
+	p := h.Params[j]
+	if _, isSig := p.Type().Underlying().(*types.Signature); !isSig || p.Referrers() == nil {
+		return false
+	}
+	stops := c08Stops{}
+	var calls []ssa.Instruction
+	for _, r := range *p.Referrers() {
+		if c, ok := r.(*ssa.Call); ok && c.Common().Value == ssa.Value(p) {
+			stops[c] = true
+			calls = append(calls, c)
+			continue
+		}
+		if _, isDbg := r.(*ssa.DebugRef); isDbg {
+			continue
+		}
+		return false
+	}
+	if len(calls) == 0 {
+		return false
+	}
+	silent := c08EntryFlow(h, stops, nil)
+	for _, r := range returnsOf(h) {
+		if silent[r.Block()] {
+			return false // a path that never runs the closure
+		}
+	}
+	for _, c1 := range calls {
+		if c08InLoop(c1) {
+			return false
+		}
+		for _, c2 := range calls {
+			if c1 != c2 && instrReaches(c1, c2) {
+				return false
+			}
+		}
+	}
+	return true
+}
+
+// freeVarFor: the free variable of run.g bound to cell (an Alloc of the enclosing function).
+func (run c08run) freeVarFor(cell ssa.Value) *ssa.FreeVar {
+	for k, bnd := range run.mc.Bindings {
+		if bnd == cell && k < len(run.g.FreeVars) {
+			return run.g.FreeVars[k]
+		}
+	}
+	return nil
+}
+
+// itemInClosure: when the item of fn (values satisfying match) is captured by the closure -
+// fn stores it once into a variable cell bound into the closure - the predicate that
+// recognises the item inside the closure (a load of that free variable).
+func (a *c08an) itemInClosure(fn *ssa.Function, run c08run, match func(ssa.Value) bool) func(ssa.Value) bool {
+	for _, bnd := range run.mc.Bindings {
+		al, ok := bnd.(*ssa.Alloc)
+		if !ok || al.Referrers() == nil {
+			continue
+		}
+		nStores, isItem := 0, false
+		for _, r := range *al.Referrers() {
+			if st, ok := r.(*ssa.Store); ok && st.Addr == ssa.Value(al) {
+				nStores++
+				isItem = match(st.Val)
+			}
+		}
+		if nStores != 1 || !isItem {
+			continue
+		}
+		fv := run.freeVarFor(al)
+		if fv == nil || c08StoresTo(run.g, fv) > 0 {
+			continue
+		}
+		return func(x ssa.Value) bool {
+			ld, ok := stripConv(x).(*ssa.UnOp)
+			return ok && ld.Op == token.MUL && ld.X == ssa.Value(fv)
+		}
+	}
+	return nil
+}
+
+func c08StoresTo(g *ssa.Function, addr ssa.Value) int {
+	n := 0
+	for _, b := range g.Blocks {
+		for _, in := range b.Instrs {
+			if st, ok := in.(*ssa.Store); ok && st.Addr == addr {
+				n++
+			}
+		}
+	}
+	return n
+}
+
+// c08pair: at a return of a closure, whether the item was settled on the way and what the
+// closure last wrote into a captured result variable ("init": never written; "true", "false",
+// "nil": that constant; "other").
+type c08pair struct {
+	disposed bool
+	val      string
+}
+
+// c08ClosureSummary: the (settled, last value written to cell) combinations with which g can
+// return, by forward propagation over g's CFG. cell may be nil (then val stays "init").
+func c08ClosureSummary(g *ssa.Function, stops c08Stops, cell *ssa.FreeVar) map[c08pair]bool {
+	classify := func(v ssa.Value) string {
+		if b, ok := constBool(v); ok {
+			if b {
+				return "true"
+			}
+			return "false"
+		}
+		if isNilConst(v) {
+			return "nil"
+		}
+		return "other"
+	}
+	in := map[*ssa.BasicBlock]map[c08pair]bool{}
+	out := map[*ssa.BasicBlock]map[c08pair]bool{}
+	if len(g.Blocks) == 0 {
+		return nil
+	}
+	in[g.Blocks[0]] = map[c08pair]bool{{false, "init"}: true}
+	work := []*ssa.BasicBlock{g.Blocks[0]}
+	for len(work) > 0 {
+		b := work[len(work)-1]
+		work = work[:len(work)-1]
+		cur := map[c08pair]bool{}
+		for p := range in[b] {
+			cur[p] = true
+		}
+		for _, instr := range b.Instrs {
+			if stops[instr] {
+				next := map[c08pair]bool{}
+				for p := range cur {
+					next[c08pair{true, p.val}] = true
+				}
+				cur = next
+			}
+			if st, ok := instr.(*ssa.Store); ok && cell != nil && st.Addr == ssa.Value(cell) {
+				next := map[c08pair]bool{}
+				for p := range cur {
+					next[c08pair{p.disposed, classify(st.Val)}] = true
+				}
+				cur = next
+			}
+		}
+		out[b] = cur
+		for _, s := range b.Succs {
+			if in[s] == nil {
+				in[s] = map[c08pair]bool{}
+			}
+			grew := false
+			for p := range cur {
+				if !in[s][p] {
+					in[s][p] = true
+					grew = true
+				}
+			}
+			if grew {
+				work = append(work, s)
+			}
+		}
+	}
+	res := map[c08pair]bool{}
+	for _, r := range returnsOf(g) {
+		for p := range out[r.Block()] {
+			res[p] = true
+		}
+	}
+	return res
+}
+
+// closureResult: the value v returned / used in fn is a load of a variable cell of fn that fn
+// itself never writes and that is written by a closure run exactly once at a call that
+// dominates the load. Returns the run and the closure's free variable for the cell.
+func (a *c08an) closureResult(fn *ssa.Function, v ssa.Value, at ssa.Instruction) (c08run, *ssa.FreeVar, bool) {
+	ld, ok := stripConv(v).(*ssa.UnOp)
+	if !ok || ld.Op != token.MUL {
+		return c08run{}, nil, false
+	}
+	al, ok := ld.X.(*ssa.Alloc)
+	if !ok || al.Referrers() == nil {
+		return c08run{}, nil, false
+	}
+	// fn itself writes the variable only with its own content (`return added` with a named
+	// result is compiled as load, store back, load)
+	for _, r := range *al.Referrers() {
+		if st, ok := r.(*ssa.Store); ok && st.Addr == ssa.Value(al) {
+			self, ok := st.Val.(*ssa.UnOp)
+			if !ok || self.Op != token.MUL || self.X != ssa.Value(al) {
+				return c08run{}, nil, false
+			}
+		}
+	}
+	var found c08run
+	var fv *ssa.FreeVar
+	n := 0
+	for _, run := range a.closureRuns(fn) {
+		if f := run.freeVarFor(al); f != nil {
+			if c08StoresTo(run.g, f) == 0 {
+				continue // captured but only read
+			}
+			found, fv = run, f
+			n++
+		}
+	}
+	// other closures that capture the cell must not write it
+	for _, r := range *al.Referrers() {
+		if mc, ok := r.(*ssa.MakeClosure); ok && (n != 1 || mc != found.mc) {
+			if g, ok := mc.Fn.(*ssa.Function); ok {
+				for k, bnd := range mc.Bindings {
+					if bnd == ssa.Value(al) && k < len(g.FreeVars) && c08StoresTo(g, g.FreeVars[k]) > 0 {
+						return c08run{}, nil, false
+					}
+				}
+			}
+		}
+	}
+	if n != 1 || !instrDominates(found.site, ld) {
+		return c08run{}, nil, false
+	}
+	_ = at
+	return found, fv, true
 }
 
 // disposes: every path from the entry of f to a return settles parameter i.
@@ -459,10 +779,9 @@ func (a *c08an) disposes(f *ssa.Function, i, depth int) bool {
 // disposesWhenTrue: f settles parameter i on every path except those returning the constant
 // false as result idx ("parked bool" helpers).
 func (a *c08an) disposesWhenTrue(f *ssa.Function, i, idx, depth int) bool {
-	stops := a.dispositions(f, f.Params[i], depth)
-	if len(stops) == 0 {
-		return false
-	}
+	match := func(x ssa.Value) bool { return stripConv(x) == ssa.Value(f.Params[i]) }
+	stops := a.dispositionsM(f, match, depth)
+	found := len(stops) > 0
 	silent := c08EntryFlow(f, stops, nil)
 	for _, r := range returnsOf(f) {
 		if !silent[r.Block()] {
@@ -472,11 +791,32 @@ func (a *c08an) disposesWhenTrue(f *ssa.Function, i, idx, depth int) bool {
 		if idx >= len(rr) {
 			return false
 		}
-		if b, ok := constBool(rr[idx]); !ok || b {
+		if b, ok := constBool(rr[idx]); ok && !b {
+			continue
+		}
+		// the result is written by a closure that ran exactly once at a call on the way
+		// (named result captured by the closure given to a withLock helper): the closure
+		// must have settled the item whenever it leaves something else than false there
+		run, fv, ok := a.closureResult(f, rr[idx], r)
+		if !ok {
 			return false
 		}
+		gm := a.itemInClosure(f, run, match)
+		if gm == nil {
+			return false
+		}
+		gstops := a.dispositionsM(run.g, gm, depth)
+		if len(gstops) == 0 {
+			return false
+		}
+		found = true
+		for pr := range c08ClosureSummary(run.g, gstops, fv) {
+			if !pr.disposed && pr.val != "false" && pr.val != "init" {
+				return false
+			}
+		}
 	}
-	return true
+	return found
 }
 
 // conditionalDispositionEdges: accept edges of the bool result of calls f(.., item, ..) where
@@ -542,27 +882,58 @@ func (a *c08an) conditionalDispositionEdges(fn *ssa.Function, item ssa.Value) ma
 // nilOnlyOnUndecodable: f returns a literal nil as result idx, and only on paths dominated by
 // the failing side of crypto.UnmarshalEd25519PublicKey.
 func (a *c08an) nilOnlyOnUndecodable(f *ssa.Function, idx int) bool {
-	var rej []edge
-	for _, ci := range callsIn(f, keyIs(keyUnmEd)) {
-		if v := errVerdict(ci); v != nil {
-			rej = append(rej, edgesOfVerdict(v).Reject...)
+	rejOf := func(g *ssa.Function) []edge {
+		var rej []edge
+		for _, ci := range callsIn(g, keyIs(keyUnmEd)) {
+			if v := errVerdict(ci); v != nil {
+				rej = append(rej, edgesOfVerdict(v).Reject...)
+			}
 		}
+		return rej
 	}
+	justified := func(rej []edge, blk *ssa.BasicBlock) bool {
+		for _, e := range rej {
+			if edgeDominates(e, blk) {
+				return true
+			}
+		}
+		return false
+	}
+	rej := rejOf(f)
 	n := 0
 	for _, r := range returnsOf(f) {
 		rr := retResults(r)
-		if idx >= len(rr) || !isNilConst(rr[idx]) {
+		if idx >= len(rr) {
 			continue
 		}
-		n++
-		just := false
-		for _, e := range rej {
-			if edgeDominates(e, r.Block()) {
-				just = true
+		if isNilConst(rr[idx]) {
+			n++
+			if !justified(rej, r.Block()) {
+				return false
+			}
+			continue
+		}
+		// result variable written by a closure run exactly once on the way: the closure always
+		// assigns it, and assigns the literal nil only after the key failed to decode
+		run, fv, ok := a.closureResult(f, rr[idx], r)
+		if !ok {
+			continue
+		}
+		for pr := range c08ClosureSummary(run.g, nil, fv) {
+			if pr.val == "init" {
+				return false // the zero value (nil) can come back without any decision
 			}
 		}
-		if !just {
-			return false
+		grej := rejOf(run.g)
+		for _, b := range run.g.Blocks {
+			for _, in := range b.Instrs {
+				if st, ok := in.(*ssa.Store); ok && st.Addr == ssa.Value(fv) && isNilConst(st.Val) {
+					n++
+					if !justified(grej, b) {
+						return false
+					}
+				}
+			}
 		}
 	}
 	return n > 0
@@ -614,7 +985,7 @@ func (a *c08an) excusedEdges(fn *ssa.Function, item ssa.Value) map[edge]bool {
 func runC08(c *Ctx) {
 	w := c.W
 	a := &c08an{c: c, w: w, li: w.locks(), consumer: map[*ssa.Function]bool{}, relScope: map[*ssa.Function]bool{}, flags: map[*types.Var]bool{},
-		lockMode: map[string]byte{}, memoDisp: map[string]bool{}, memoKnow: map[string]bool{}, memoPred: map[string]bool{}}
+		lockMode: map[string]byte{}, memoDisp: map[string]bool{}, memoRuns: map[*ssa.Function][]c08run{}, memoKnow: map[string]bool{}, memoPred: map[string]bool{}}
 	if n := namedType(w, pkgTypes, "GroupMessageEvent"); n != nil {
 		a.gme = types.NewPointer(n)
 	}
@@ -1326,6 +1697,30 @@ func (a *c08an) knownReads(v ssa.Value, depth int) []ssa.Instruction {
 			return nil
 		}
 		if al, ok := x.X.(*ssa.Alloc); ok && al.Referrers() != nil {
+			// a variable written by a closure that ran exactly once at a dominating call
+			// (withLock(func(){ known = device.flag })): the read happened at that call
+			if run, fv, ok := a.closureResult(x.Parent(), x, x); ok {
+				any := false
+				for _, b := range run.g.Blocks {
+					for _, in := range b.Instrs {
+						st, ok := in.(*ssa.Store)
+						if !ok || st.Addr != ssa.Value(fv) {
+							continue
+						}
+						if _, isC := st.Val.(*ssa.Const); isC {
+							continue
+						}
+						if len(a.knownReads(st.Val, depth+1)) == 0 {
+							return nil
+						}
+						any = true
+					}
+				}
+				if any {
+					return []ssa.Instruction{run.site}
+				}
+				return nil
+			}
 			var out []ssa.Instruction
 			for _, r := range *al.Referrers() {
 				if st, ok := r.(*ssa.Store); ok && st.Addr == ssa.Value(al) {
